@@ -26,11 +26,42 @@ fn work_list(ctx: &Ctx, corp: &corpus::Corpus) -> Vec<(String, u8)> {
     for (k, &i) in others.iter().enumerate().take(take) {
         v.push((corp.fens[i].clone(), if k % 2 == 0 { 3 } else { 4 }));
     }
+    // positions WITH game history ("FEN|moves"): 10-16 plies of repetition- and capture-weighted
+    // play, so the remembered earlier positions matter inside the search
+    let n_hist = ctx.tier.pick(30, 120);
+    for k in 0..n_hist {
+        let i = others[(k * 5 + 1) % others.len()];
+        let mut game = super::oracle::Game::new(corp.positions[i].clone());
+        let mut h = o::hash_str(&format!("c16-history-{k}-{}", ctx.seed));
+        for _ in 0..(10 + k % 7) {
+            let legal = game.cur.legal_moves();
+            if legal.is_empty() {
+                break;
+            }
+            h = o::hash_bytes(&h.to_le_bytes(), 16);
+            game.play(super::gen::choose_move(&game, &legal, true, (h >> 20) as u16));
+        }
+        while game.cur.legal_moves().is_empty() && !game.moves.is_empty() {
+            game.undo();
+        }
+        if !game.moves.is_empty() {
+            v.push((format!("{}|{}", corp.fens[i], game.moves_uci().join(" ")), 3 + (k % 2) as u8));
+        }
+    }
     v
 }
 
-fn one(fen: &str, d: u8) -> Option<(String, i16, u64)> {
-    let board = guard(|| Board::from_fen(fen)).ok()?;
+/// "FEN" or "FEN|m1 m2 ..." -> (fen, moves)
+fn split_key(key: &str) -> (&str, Vec<String>) {
+    match key.split_once('|') {
+        Some((f, m)) => (f, m.split_whitespace().map(String::from).collect()),
+        None => (key, vec![]),
+    }
+}
+
+fn one(key: &str, d: u8) -> Option<(String, i16, u64)> {
+    let (fen, moves) = split_key(key);
+    let board = super::c11::build_board(fen, &moves)?;
     srch::set_tt_off(false);
     srch::clear_tt();
     let r = srch::run_search(&board, Some(d), None);
@@ -202,14 +233,32 @@ pub fn run(ctx: &Ctx) -> Report {
     {
         use super::uciproc::{Engine, Stream};
         let corp = corpus::load(&ctx.verif);
-        let list: Vec<(String, u8)> = work_list(ctx, &corp).into_iter().filter(|x| x.1 <= 4).take(ctx.tier.pick(12, 60)).collect();
+        let all = work_list(ctx, &corp);
+        let mut list: Vec<(String, u8)> = all.iter().filter(|x| x.1 <= 4 && !x.0.contains('|')).take(ctx.tier.pick(10, 50)).cloned().collect();
+        list.extend(all.iter().filter(|x| x.0.contains('|')).take(ctx.tier.pick(10, 50)).cloned());
         let mut tables: Vec<Vec<(String, String)>> = vec![];
-        for _proc in 0..3 {
+        for proc_ in 0..3 {
             let mut t = vec![];
-            for (fen, d) in &list {
+            // variants 1 and 2: ucinewgame first, and the command loop / the search thread held
+            // back at a schedule point (whatever the go handler does after spawning the search then
+            // happens while the search is already running)
+            let env: Vec<(String, String)> = match proc_ {
+                0 => vec![],
+                1 => vec![("RCE_VERIF_SCHED".to_string(), "uci:spawned=60".to_string())],
+                _ => vec![("RCE_VERIF_SCHED".to_string(), "uci:spawned=200,search:enter=30".to_string())],
+            };
+            for (key, d) in &list {
+                let (fen, moves) = split_key(key);
                 // one engine process per search, so every search starts from an empty cache
-                let Ok(mut e) = Engine::spawn(&ctx.engine, &[]) else { continue };
-                e.send(&format!("position fen {fen}"));
+                let Ok(mut e) = Engine::spawn(&ctx.engine, &env) else { continue };
+                if proc_ > 0 {
+                    e.send("ucinewgame");
+                }
+                if moves.is_empty() {
+                    e.send(&format!("position fen {fen}"));
+                } else {
+                    e.send(&format!("position fen {fen} moves {}", moves.join(" ")));
+                }
                 e.send(&format!("go depth {d}"));
                 let best = e.wait_for(Duration::from_secs(60), |ev| (ev.stream == Stream::Out && ev.line.starts_with("bestmove")) || ev.eof);
                 let nodes = e.stdout_lines().iter().rev().find(|l| l.line.starts_with("info")).and_then(|l| {
@@ -320,5 +369,5 @@ pub fn replay(ctx: &Ctx, case: &Value) -> Report {
 }
 
 pub const LEVEL: &str = "exploration";
-pub const RULE: &str = "(position, depth) = the 62 bench FENs at depth 4-5 (quick) / 5-6 (thorough) and corpus positions at depth 3-4, each searched from an emptied cache 3 times per process in different orders with searches of other positions in between, in 4 separate processes running at the same time as 10 busy-loop processes and as the real 'bench' subcommand (x2 quick / x4 thorough, one run frozen for 6 s by SIGSTOP/SIGCONT); the same searches as the only search of a fresh engine process (x3) must equal the long-lived processes' results; oracle = equality of (bestmove, root score, node count) across all repetitions and processes, and of the bench node total. Non-trivial = (position, depth) with >= 1000 nodes, plus the bench comparison; distinct by (position, depth).";
+pub const RULE: &str = "(position, depth) = the 62 bench FENs at depth 4-5 (quick) / 5-6 (thorough), corpus positions at depth 3-4 and 30/120 positions WITH game history (10-16 plies of weighted play, so remembered repetitions matter), each searched from an emptied cache 3 times per process in different orders with searches of other positions in between, in 4 separate processes running at the same time as 10 busy-loop processes and as the real 'bench' subcommand (x2 quick / x4 thorough, one run frozen for 6 s by SIGSTOP/SIGCONT); the same searches as the only search of a fresh engine process (x3: plain; after ucinewgame with the command loop held 60 ms after spawning the search; after ucinewgame with 200 ms + the search thread held 30 ms) must equal the long-lived processes' results; oracle = equality of (bestmove, root score, node count) across all repetitions and processes, and of the bench node total. Non-trivial = (position, depth) with >= 1000 nodes, plus the bench comparison; distinct by (position, depth).";
 pub const ASSUMPTIONS: &[&str] = &["equality is the whole oracle; nothing is assumed about which move is best", "machine load is produced by the harness itself (10 busy loops + concurrent bench runs on 16 cores)"];
